@@ -45,8 +45,8 @@ def gen_cases(tier, seed):
 def probes():
     """fixed cases run on every check"""
     V, C, F = g.V, g.C, g.F
-    # Product<(u32, Dual<u32>)> as the column type of a lattice relation (known finding product_lattice_column_not_hash:
-    # Product does not implement Hash, the program does not compile)
+    # Product<(u32, Dual<u32>)> as the column type of a lattice relation: must compile and agree (did not compile before
+    # /repo commit e3cb597, known_findings.json product_lattice_column_not_hash, status fixed)
     prod = dict(rels=[("e", 3, "rel"), ("next", 2, "rel"), ("p", 2, ("lat", "prod"))],
                 rules=[dict(heads=[("p", [V("x"), F("prod_of", "a", "b")])], body=[("clause", "e", [V("x"), V("a"), V("b")], [])]),
                        dict(heads=[("p", [V("y"), F("prod_id", "l")])], body=[("clause", "next", [V("x"), V("y")], []), ("clause", "p", [V("x"), V("l")], [])])],
@@ -179,11 +179,8 @@ def compare(r):
         cs = dict(base, inputs=[inp])
         iv = r["impl"][k] if r["impl"] else None
         if iv is None or "snaps" not in iv:
-            known = None
             msg = json.dumps(iv)
-            if iv and "compile_error" in iv and "prod" in lats.values() and "Hash" in msg and "Product" in msg:
-                known = "product_lattice_column_not_hash"
-            mism.append(dict(case=cs, impl=iv, model=None, spec=None, kind="impl_violates_spec", known=known,
+            mism.append(dict(case=cs, impl=iv, model=None, spec=None, kind="impl_violates_spec", known=None,
                              what="implementation did not produce a result (compile error / panic / timeout): %s" % msg[:400]))
             continue
         spec = r["spec"][k]
